@@ -38,6 +38,7 @@
 #include "ref/icalio.h"
 #include "ref/civil_c15.h"
 #include "ref/computus.h"
+#include "ref/c05_common.h"
 
 /* a second pass over the same cases (sanitizer build) does not count them again */
 static int nocount;
@@ -417,6 +418,44 @@ shift_plain(const struct spec_s *sp, int m, int d)
 	snprintf(lines, sizeof(lines), "DTSTART;VALUE=DATE:20200101\nRRULE:FREQ=YEARLY;BYMONTH=%d;BYMONTHDAY=%d;SHIFT=%s\n", m, d, sp->txt);
 	no = run_stream(obs, 64, lines, cvl_days(2034, 12, 31), &ended);
 	vd_sh->evals++;
+	if (no > 0 && (d == 1 || d == 15 || d == 28)) {
+		/* the rule means the same after it has been written out and read again (what echsq, the daemon's
+		 * checkpoint and echse merge do to it before it is ever expanded) */
+		static char text[1024], back[4096];
+		static long obs2[64];
+		echs_task_t t;
+		ssize_t bn;
+		int no2 = -1;
+		bool ended2;
+		ical_wrap(text, sizeof(text), "c17@verif", lines);
+		if ((t = ical_task1(text)) != NULL) {
+			bn = c05_seria(back, sizeof(back), &t, 1, C05_FORM_ECHSQ);
+			free_echs_task(t);
+			if (bn > 0) {
+				/* the property lines of the written event */
+				char *b = strstr(back, "BEGIN:VEVENT"), *e2 = strstr(back, "END:VEVENT");
+				if (b && e2) {
+					static char l2[2048];
+					size_t o2 = 0;
+					*e2 = '\0';
+					for (char *ln = strchr(b, '\n'); ln && *++ln; ln = strchr(ln, '\n')) {
+						size_t ll = strcspn(ln, "\n");
+						if (!strncmp(ln, "UID", 3) || !strncmp(ln, "SUMMARY", 7)) continue;
+						o2 += (size_t)snprintf(l2 + o2, sizeof(l2) - o2, "%.*s\n", (int)ll, ln);
+					}
+					no2 = run_stream(obs2, 64, l2, cvl_days(2034, 12, 31), &ended2);
+				}
+			}
+		}
+		vd_sh->evals++;
+		if (no2 != no || memcmp(obs, obs2, sizeof(*obs) * (size_t)no)) {
+			int i = 0;
+			while (i < no && i < no2 && obs[i] == obs2[i]) i++;
+			snprintf(sig, sizeof(sig), "shift-rewritten/%s/%s", fgroup(sp), nclass(sp));
+			vd_viol(sig, "BYMONTH=%d;BYMONTHDAY=%d;SHIFT=%s: written out and read again the rule gives %s where it gave %s (occurrence %d; %d vs %d occurrences)", m, d, sp->txt,
+				i < no2 ? zstr(b1, sizeof(b1), obs2[i]) : "nothing", i < no ? zstr(b2, sizeof(b2), obs[i]) : "nothing", i + 1, no2, no);
+		}
+	}
 	if (no < 0) {
 		snprintf(sig, sizeof(sig), "shift-no-stream/%s/%s", fgroup(sp), nclass(sp));
 		vd_viol(sig, "BYMONTH=%d;BYMONTHDAY=%d;SHIFT=%s from 2020-01-01: the parser gave no recurring task", m, d, sp->txt);
